@@ -362,6 +362,22 @@ theorem pinv_packLoop (g0 : Graph) (fuel : Nat) (g : Graph) (fr : List Nat) (ok 
         obtain ⟨g2, hs, h⟩ := h
         exact ih g2 fr1 (pinv_sortShortest g0 _ g2 fr1 hs (pinv_removeOrphans g0 g1 fr1 hp1)) h
 
+theorem pinv_packTail (g0 g : Graph) (fr : List Nat) (ok : Bool) (g' : Graph) (fr' : List Nat)
+    (hp : PInv g0 g fr) (h : packTail g fr = some (ok, g', fr')) : PInv g0 g' fr' := by
+  unfold packTail at h
+  simp only [Option.bind_eq_bind, Option.bind_eq_some_iff] at h
+  obtain ⟨⟨b, g2, fr2⟩, ha, g3, hs, ov, hov, h⟩ := h
+  obtain ⟨hp2, _⟩ := pinv_assignSpaces g0 g fr b g2 fr2 hp ha
+  have hp3 := pinv_sortShortest g0 _ g3 fr2 hs (pinv_removeOrphans g0 g2 fr2 hp2)
+  cases ov with
+  | false =>
+    simp only [Bool.not_false, ↓reduceIte, Option.some.injEq, Prod.mk.injEq] at h
+    obtain ⟨_, rfl, rfl⟩ := h
+    exact hp3
+  | true =>
+    simp only [Bool.not_true, Bool.false_eq_true, ↓reduceIte] at h
+    exact pinv_packLoop g0 _ g3 fr2 ok g' fr' hp3 h
+
 theorem pinv_packObjects (g0 g : Graph) (fr : List Nat) (ok : Bool) (g' : Graph) (fr' : List Nat)
     (hp : PInv g0 g fr) (h : packObjects g fr = some (ok, g', fr')) : PInv g0 g' fr' := by
   unfold packObjects at h
@@ -374,18 +390,8 @@ theorem pinv_packObjects (g0 g : Graph) (fr : List Nat) (ok : Bool) (g' : Graph)
     obtain ⟨_, rfl, rfl⟩ := h
     exact hp1
   | false =>
-    simp only [Bool.false_eq_true, ↓reduceIte, Option.bind_eq_some_iff] at h
-    obtain ⟨⟨b, g2, fr2⟩, ha, g3, hs, ov, hov, h⟩ := h
-    obtain ⟨hp2, _⟩ := pinv_assignSpaces g0 g1 fr b g2 fr2 hp1 ha
-    have hp3 := pinv_sortShortest g0 _ g3 fr2 hs (pinv_removeOrphans g0 g2 fr2 hp2)
-    cases ov with
-    | false =>
-      simp only [Bool.not_false, ↓reduceIte, Option.some.injEq, Prod.mk.injEq] at h
-      obtain ⟨_, rfl, rfl⟩ := h
-      exact hp3
-    | true =>
-      simp only [Bool.not_true, Bool.false_eq_true, ↓reduceIte] at h
-      exact pinv_packLoop g0 _ g3 fr2 ok g' fr' hp3 h
+    simp only [Bool.false_eq_true, ↓reduceIte] at h
+    exact pinv_packTail g0 g1 fr ok g' fr' hp1 h
 
 /-- ids that may be handed out by `ObjectId::next()` while packing `g`: distinct, and not in use as
 an object id, a link target, a cached parent or the root of `g` -/
